@@ -102,6 +102,9 @@ pub trait Dot {
 	async fn echo(&self, a: u64, b: Option<String>) -> RpcResult<(u64, Option<String>)>;
 	#[subscription(name = "sub" => "notif", unsubscribe = "unsub", item = Item, aliases = ["dotSubAlias"], unsubscribe_aliases = ["dotUnsubAlias"])]
 	async fn sub(&self, a: u64) -> SubscriptionResult;
+	/// sends `a` items and then stays open until the client unsubscribes
+	#[subscription(name = "hold" => "holdNotif", unsubscribe = "unhold", item = Item)]
+	async fn hold(&self, a: u64) -> SubscriptionResult;
 }
 
 #[rpc(client, server, namespace = "slash", namespace_separator = "/")]
@@ -232,6 +235,17 @@ impl DotServer for Impl {
 	async fn sub(&self, pending: PendingSubscriptionSink, a: u64) -> SubscriptionResult {
 		self.rec("dot.sub", json!([a]));
 		pump(pending, a, "dot".into()).await
+	}
+	async fn hold(&self, pending: PendingSubscriptionSink, a: u64) -> SubscriptionResult {
+		self.rec("dot.hold", json!([a]));
+		let sink = pending.accept().await?;
+		for n in 0..a.min(4) {
+			let msg = SubscriptionMessage::from(serde_json::value::to_raw_value(&Item { n, tag: "hold".into() }).unwrap());
+			sink.send(msg).await?;
+		}
+		sink.closed().await;
+		self.rec("dot.hold:closed", json!([a]));
+		Ok(())
 	}
 }
 
@@ -398,7 +412,7 @@ fn collect_items(c: &Ctx<WsClient>, mut sub: Subscription<Item>, n: usize) -> Ve
 
 pub fn check(rep: &Reporter) {
 	rep.set_rule(
-		"a fixed family of #[rpc(client, server)] declarations compiled into the harness (0–4 params; trailing Option ×1 and ×2 (also spelled core::option::Option / std::option::Option); Option in the middle; raw identifiers as by-name argument names; param_kind array/map; #[argument(rename)] to a keyword, to PascalCase, kebab-case and SCREAMING_CASE names; camelCase name; aliases; namespaces with separators `_`, `.`, `/`; sync, async, blocking; RpcResult / Result<_, ErrorObjectOwned> and error returns; subscriptions with params, Option tail, map kind, overridden notification name, aliases) served in memory and called through the generated client stubs over a real WsClient (duplex stream), a real HttpClient (bridged in process to the server's tower service), and both clients built from URLs against Server::start on a loopback socket; full product of per-type argument alphabets per method (u64/i64/u8 boundaries, f64 incl. −0.0 and 1e308, bool, all strings of length ≤ 2 over 12 (thorough 20) symbols with quotes/backslashes/NUL/controls/astral/combining characters; thorough adds a decimal ladder of 1..17 significant digits at 7 magnitudes to the f64 alphabet; vectors, nested struct with enum and map), plus hand-encoded requests for the three spellings of a trailing optional under both encodings, every alias and every namespaced name. Oracle: recorded server arguments == client arguments, client result == server return, subscription items equal and in order, and (raw WebSocket peer) the notification method name on the wire is the declared one incl. namespace prefix and override.",
+		"a fixed family of #[rpc(client, server)] declarations compiled into the harness (0–4 params; trailing Option ×1 and ×2 (also spelled core::option::Option / std::option::Option); Option in the middle; raw identifiers as by-name argument names; param_kind array/map; #[argument(rename)] to a keyword, to PascalCase, kebab-case and SCREAMING_CASE names; camelCase name; aliases; namespaces with separators `_`, `.`, `/`; sync, async, blocking; RpcResult / Result<_, ErrorObjectOwned> and error returns; subscriptions with params, Option tail, map kind, overridden notification name, aliases) served in memory and called through the generated client stubs over a real WsClient (duplex stream), a real HttpClient (bridged in process to the server's tower service), and both clients built from URLs against Server::start on a loopback socket; full product of per-type argument alphabets per method (u64/i64/u8 boundaries, f64 incl. −0.0 and 1e308, bool, all strings of length ≤ 2 over 12 (thorough 20) symbols with quotes/backslashes/NUL/controls/astral/combining characters; thorough adds a decimal ladder of 1..17 significant digits at 7 magnitudes to the f64 alphabet; vectors, nested struct with enum and map), plus hand-encoded requests for the three spellings of a trailing optional under both encodings, every alias and every namespaced name. Oracle: recorded server arguments == client arguments, client result == server return, subscription items equal and in order, the generated stub's unsubscribe() ends the server-side subscription of a namespaced API, and (raw WebSocket peer) the notification method name on the wire is the declared one incl. namespace prefix and override.",
 	);
 	rep.assume("the `programs` quantifier is covered over this fixed family of declarations only");
 	let thorough = rep.tier.thorough();
@@ -702,6 +716,56 @@ fn subs(rep: &Reporter, local: &mut Local, c: &Ctx<WsClient>) {
 				Err(e) => rep.violation("subscription:alias-or-namespace", &format!("subscribe via `{subname}`/`{unsub}` failed: {e:?}"), json!({"subscribe_name": subname})),
 			}
 			local.case_unique("subscription:alias");
+		}
+		// a namespaced subscription that stays open: the stub's unsubscribe must reach the server's unsubscribe method
+		// (observed through a second, hand-written unsubscribe: it finds nothing left to remove) and end the handler
+		{
+			c.log.lock().unwrap().clear();
+			match c.rt.block_on(DotClient::hold(&c.client, a)) {
+				Ok(mut sub) => {
+					let (items, second, closed) = c.rt.block_on(async {
+						let mut v = Vec::new();
+						for _ in 0..a {
+							match tokio::time::timeout(std::time::Duration::from_secs(10), sub.next()).await {
+								Ok(Some(Ok(i))) => v.push(i),
+								_ => break,
+							}
+						}
+						let id = match sub.kind() {
+							jsonrpsee::core::client::SubscriptionKind::Subscription(id) => Some(id.clone().into_owned()),
+							_ => None,
+						};
+						let _ = sub.unsubscribe().await;
+						let second: Result<bool, _> = match id {
+							Some(id) => jsonrpsee::core::client::ClientT::request(&c.client, "dot.unhold", rpc_params![id]).await,
+							None => Ok(true),
+						};
+						let mut closed = false;
+						for _ in 0..200 {
+							if c.log.lock().unwrap().iter().any(|l| l.0 == "dot.hold:closed") {
+								closed = true;
+								break;
+							}
+							tokio::task::yield_now().await;
+						}
+						(v, second, closed)
+					});
+					let exp: Vec<Item> = (0..a).map(|n| Item { n, tag: "hold".into() }).collect();
+					if items != exp {
+						rep.violation("subscription:stub", &format!("dot.hold({a}): items {items:?}, expected {exp:?}"), json!({"method":"dot.hold","arguments":[a]}));
+					}
+					match second {
+						Ok(false) if closed => {}
+						other => rep.violation(
+							"subscription:stub-unsubscribe-not-delivered",
+							&format!("dot.hold({a}): after the generated stub's unsubscribe() a second `dot.unhold` for the same id answered {other:?} (expected Ok(false): already removed) and the server handler {} told that the subscription closed", if closed { "was" } else { "was NOT" }),
+							json!({"method":"dot.hold","arguments":[a]}),
+						),
+					}
+				}
+				Err(e) => rep.violation("subscription:stub-failed", &format!("dot.hold({a}) failed: {e:?}"), json!({"method":"dot.hold"})),
+			}
+			local.case_unique("subscription:stub-unsubscribe");
 		}
 		// the un-namespaced subscription through its alias, Option tail passed / omitted
 		for params in [json!([a, "al"]), json!([a])] {
